@@ -421,6 +421,33 @@ def tz_pairs():
     save("tz_pairs", ["C12", "C14"], steps)
 
 
+def raw(sub, *args):
+    return {"ev": "raw", "argv": [esc(a) for a in (sub,) + args], "ru": True, "sub": sub, "dom": False}
+
+
+def cli_combos():
+    """branch commands with surplus and combined arguments: whatever is refused must leave HEAD and every branch alone"""
+    steps = head()
+    steps.append(w("a", "1"))
+    steps.append({"ev": "add", "paths": ["a"]})
+    steps.append({"ev": "commit", "msg": "one"})
+    steps.append({"ev": "branch", "name": "other"})
+    steps.append(w("a", "2"))
+    steps.append({"ev": "add", "paths": ["a"]})
+    steps.append({"ev": "commit", "msg": "two"})          # main is one commit ahead of other
+    for args in (("switch", "-c", "main", "other"), ("switch", "-c", "feature", "other"), ("switch", "other", "main"),
+                 ("switch", "-c", "other"), ("switch", "--create", "x", "--create", "y", "other"),
+                 ("branch", "-d", "main"), ("branch", "-d", "other", "main"), ("branch", "x", "-d", "other"), ("branch", "-r", "other"),
+                 ("branch", "-r", "y", "-d", "other"), ("branch", "other"), ("branch", "a", "b"),
+                 ("update-ref", "refs/heads/other"), ("update-ref", "refs/heads/nope", "@HEADID@"), ("update-ref", "other", "@HEADID@"),
+                 ("rev-parse", "nope"), ("switch", "nope"), ("switch",)):
+        steps.append(raw(*args))
+        steps.append({"ev": "branchlist"})
+    steps.append({"ev": "revparse", "names": ["HEAD", "main", "other"]})
+    steps.append({"ev": "reflog"})
+    save("cli_combos", ["C10", "C18", "C11", "C03"], steps)
+
+
 if __name__ == "__main__":
     name_lengths()
     big_index()
@@ -435,3 +462,4 @@ if __name__ == "__main__":
     empty_states()
     revert_content()
     tz_pairs()
+    cli_combos()
